@@ -58,6 +58,8 @@ def calls_in(node, shallow=False):
 
 def call_name(call):
     """dotted name of the callee if it is a Name/Attribute chain"""
+    if not isinstance(call, ast.Call):
+        return None
     return attr_chain(call.func) if isinstance(call.func, (ast.Attribute, ast.Name)) else None
 
 
